@@ -231,6 +231,12 @@ impl Fx {
     /// The fixture around a given pairing store (the pairing-lifecycle scripts bring a store with a
     /// controllable clock); `None` = the static store of the credential matrix at the fixed clock NOW.
     pub(crate) fn build_with_pairing(work: &Path, cfg: &Cfg, store: Option<Arc<PairingStore>>) -> Fx {
+        Fx::build_with_source(work, cfg, store, SOURCE)
+    }
+
+    /// The same fixture around another program (it must declare the globals zq_f and have %IX0.2, which the
+    /// fixture forces; the state probes of the credential matrix are not meant for it).
+    pub(crate) fn build_with_source(work: &Path, cfg: &Cfg, store: Option<Arc<PairingStore>>, source: &str) -> Fx {
         let n = FX_SEQ.fetch_add(1, Ordering::SeqCst);
         let base = work.join(format!("fx{}-{}", std::process::id(), n));
         let _ = std::fs::remove_dir_all(&base);
@@ -252,14 +258,14 @@ impl Fx {
             }
         };
 
-        let mut h = TestHarness::from_source(SOURCE).unwrap_or_else(|e| panic!("fixture program does not compile: {e}"));
+        let mut h = TestHarness::from_source(source).unwrap_or_else(|e| panic!("fixture program does not compile: {e}"));
         let debug = h.runtime_mut().enable_debug();
         h.runtime_mut().io_mut().resize(4, 4, 4);
         h.cycle();
         let metadata = h.runtime().metadata_snapshot();
         let file_id = (0..4u32).find(|i| metadata.statement_locations(*i).is_some()).expect("file id of the fixture program");
         // initial debugger state that the clearing / releasing requests can visibly undo
-        if let Some((loc, _, _)) = metadata.resolve_breakpoint_position(SOURCE, file_id, BP_LINE_A, 1) {
+        if let Some((loc, _, _)) = metadata.resolve_breakpoint_position(source, file_id, BP_LINE_A, 1) {
             debug.set_breakpoints_for_file(file_id, vec![DebugBreakpoint::new(loc)]);
         }
         debug.force_global("zq_f", Value::LInt(9));
@@ -299,7 +305,7 @@ impl Fx {
                 })
                 .unwrap();
         }
-        let sources = SourceRegistry::new(vec![SourceFile { id: file_id, path: PathBuf::from("main.st"), text: SOURCE.to_string() }]);
+        let sources = SourceRegistry::new(vec![SourceFile { id: file_id, path: PathBuf::from("main.st"), text: source.to_string() }]);
         let hmi_descriptor = Arc::new(Mutex::new(HmiRuntimeDescriptor::from_sources(Some(&root), &sources)));
         let historian = HistorianService::new(HistorianConfig { enabled: true, history_path: base.join("hist").join("h.jsonl"), ..HistorianConfig::default() }, None).ok();
         let state = Arc::new(ControlState {
@@ -350,6 +356,27 @@ impl Fx {
     /// resource commands the endpoint has sent so far (as logged by the stub that receives them)
     pub(crate) fn commands(&self) -> Vec<String> {
         self.cmds.lock().unwrap().clone()
+    }
+
+    /// The same endpoint state in front of a REAL resource thread's control (served on a new socket).
+    pub(crate) fn swap_resource(&mut self, resource: ResourceControl<StdClock>) {
+        let mut st = (*self.state).clone();
+        st.resource = resource;
+        let state = Arc::new(st);
+        let n = FX_SEQ.fetch_add(1, Ordering::SeqCst);
+        let sock = self.sock.with_file_name(format!("r{n}.sock"));
+        let server = ControlServer::start(ControlEndpoint::Unix(sock.clone()), state.clone()).unwrap_or_else(|e| panic!("control server: {e}"));
+        let _ = std::fs::remove_file(&self.sock);
+        self.conn = None;
+        self.web = None;
+        self.state = state;
+        self._server = server;
+        self.sock = sock;
+    }
+
+    /// hands the fixture's runtime to a stage that runs the cycles in a thread of its own
+    pub(crate) fn swap_harness(&mut self, other: TestHarness) -> TestHarness {
+        std::mem::replace(&mut self.h, other)
     }
 
     pub(crate) fn control_state(&self) -> Arc<ControlState> {
